@@ -148,7 +148,28 @@ func (p *Program) expandTemplates() {
 			cp := *fc
 			cp.Implementing = ""
 			cp.Name = prefix + it.Method(m).Name()
-			p.CS.Funcs[fc.PkgPath+"."+cp.Name] = &cp
+			k := fc.PkgPath + "." + cp.Name
+			// a contract written for one method adds its clauses to the template's
+			if own := p.CS.Funcs[k]; own != nil && own != fc {
+				cp.Items = append(append([]Item{}, fc.Items...), own.Items...)
+				cp.Asserts = append(append([]AtAssert{}, fc.Asserts...), own.Asserts...)
+				cp.Opts = map[string]string{}
+				for ok, ov := range fc.Opts {
+					cp.Opts[ok] = ov
+				}
+				for ok, ov := range own.Opts {
+					cp.Opts[ok] = ov
+				}
+				if len(own.Loops) > 0 {
+					cp.Loops = own.Loops
+				}
+				for _, pr := range own.Props {
+					if !hasProp(cp.Props, pr) {
+						cp.Props = append(append([]string{}, cp.Props...), pr)
+					}
+				}
+			}
+			p.CS.Funcs[k] = &cp
 		}
 	}
 }
